@@ -12,6 +12,18 @@ import (
 
 // C04: a rule matches iff its pattern and every modifier are satisfied.
 
+type c04Entry struct {
+	text string
+	s    *gen.Spec
+	q    *gen.Req
+	want bool
+}
+
+var (
+	c04Seen  []c04Entry
+	c04Cases int
+)
+
 type c04Witness struct {
 	Rule      string    `json:"rule"`
 	Spec      *gen.Spec `json:"spec"`
@@ -92,6 +104,26 @@ func init() {
 			if idx%16 == 5 {
 				c04Twins(c)
 			}
+			c04Cases++
+			if c04Cases%400 == 0 && len(c04Seen) > 0 && !c.Env.Replay {
+				// Second use after a churn phase: earlier rules are created
+				// again and must still give the reference answer.
+				churnRules(c, 3000)
+				for k := 0; k < 12; k++ {
+					e := c04Seen[c.Rng.Intn(len(c04Seen))]
+					r, err := rules.NewNetworkRule(e.text, 1)
+					if err != nil {
+						continue
+					}
+					got := r.Match(e.q.Build())
+					c.Eval(1)
+					if got != e.want {
+						c.Violation("second-use-differs", nil, c04Witness{Rule: e.text, Spec: e.s, Request: e.q, Got: got, Reference: e.want},
+							"rule %q created again after %d other rules: Match=%v, reference=%v", e.text, 3000, got, e.want)
+					}
+				}
+				c.Event("second_use_rechecks_after_churn", 12)
+			}
 			for k := 0; k < 8; k++ {
 				s, phost := gen.RandomMaskSpec(c.Rng, gen.AllMods, []float64{0.1, 0.3, 0.5}[c.Rng.Intn(3)])
 				if c.Rng.Intn(6) == 0 && s.Exception {
@@ -140,6 +172,14 @@ func init() {
 						}
 						c.Violation(sig, nil, w,
 							"rule %q on request %+v: Match=%v, reference=%v", text, *q, got, want == ref.Yes)
+					}
+					if j == 0 {
+						e := c04Entry{text, s, q, want == ref.Yes}
+						if len(c04Seen) < 1024 {
+							c04Seen = append(c04Seen, e)
+						} else {
+							c04Seen[c.Rng.Intn(len(c04Seen))] = e
+						}
 					}
 					if c.WantSample() && want == ref.Yes && len(kinds) >= 2 {
 						c.Sample(map[string]any{"rule": text, "request": q, "match": got})
